@@ -24,6 +24,17 @@ var c11Tokens = []string{
 }
 
 var c11HostileBytes = []byte{'\'', '"', '`', '(', ')', ',', ';', '\\', 0, '\n', '%', '.', '-', '*', 0xff, ' '}
+// c11CutStatements: valid statements of every clause family; the totality sweep cuts them after each token.
+var c11CutStatements = []string{
+	"SELECT a, `b` AS x, m.loc AS loc FROM stream s LEFT JOIN meta m ON s.dev = m.dev AND `site` = m.`site` WHERE a > 1 AND s LIKE 'a%' LIMIT 3",
+	"SELECT k, lag(v, 1, 0) OVER (PARTITION BY `k`, d.x WHEN v > 1) AS p, acc_sum(v) OVER (PARTITION BY k) AS t FROM stream WHERE had_changed(true, v)",
+	"SELECT * FROM stream MATCH_RECOGNIZE (PARTITION BY `k`, site ORDER BY ts MEASURES MATCH_NUMBER() AS mn, LAST(A.v) AS `l` ALL ROWS PER MATCH AFTER MATCH SKIP TO LAST B PATTERN (A B+ | C) SUBSET u = (A, B) WITHIN '5s' DEFINE A AS v > 1, B AS v > PREV(v))",
+	"SELECT k, count(*) AS c, sum(v * 2) + 1 AS s FROM stream GROUP BY k, upper(`k2`), SlidingWindow('4s', '2s') HAVING c > 1 AND max(v) < 5 WITH (TIMESTAMP='ts', TIMEUNIT='ms', MAXOUTOFORDERNESS='1s') ORDER BY s DESC, k LIMIT 2",
+	"SELECT DISTINCT CASE WHEN a > 1 THEN 'hi' WHEN a IS NULL THEN \"nil\" ELSE concat(s, '-x') END AS r, arr[0] AS f, d['x'] AS g FROM stream WHERE NOT (a > 5 OR s IS NOT NULL)",
+	"SELECT k, sum(v) AS s FROM stream GROUP BY k, GLOBAL WINDOW TRIGGER WHEN sum(v) >= 4 OR count(*) = 3 WITH (STATETTL='1m')",
+	"SELECT k, unnest(arr) AS el, changed_cols(\"c_\", true, a, s) FROM stream GROUP BY k, SessionWindow('5s') WITH (TIMESTAMP='ts', IDLETIMEOUT='5s')",
+}
+
 var c11Prefixes = []string{
 	"SELECT a FROM stream WHERE a > ",
 	"SELECT ",
@@ -567,7 +578,33 @@ func (c11) Run(u fw.Unit) fw.Result {
 				}
 			})
 		}
-		a.sample(map[string]any{"prefixes": c11Prefixes, "hostile_bytes": fmt.Sprintf("%q", c11HostileBytes)})
+		// truncations: every valid statement of c11CutStatements cut after each token, continued by every hostile
+		// byte string of length 0..2 (a statement cut off right after an opening quote / backtick / parenthesis)
+		for _, st := range c11CutStatements {
+			for i := 0; i <= len(st); i++ {
+				if i < len(st) && st[i] != ' ' {
+					continue
+				}
+				pre := st[:i]
+				for L := 0; L <= 2; L++ {
+					sequences(L, len(c11HostileBytes), func(seq []int) {
+						idx++
+						if idx%sp.Shards != sp.Shard {
+							return
+						}
+						b := make([]byte, len(seq))
+						for j, x := range seq {
+							b[j] = c11HostileBytes[x]
+						}
+						total(pre + " " + string(b))
+						if L > 0 {
+							total(pre + string(b))
+						}
+					})
+				}
+			}
+		}
+		a.sample(map[string]any{"prefixes": c11Prefixes, "hostile_bytes": fmt.Sprintf("%q", c11HostileBytes), "truncated_statements": len(c11CutStatements)})
 	case "match":
 		c11RunMatches(a)
 	case "grammar":
@@ -818,7 +855,7 @@ func c11Shape(s c11Stmt) string {
 func (c11) Describe(tier string) fw.Description {
 	return fw.Description{
 		Level: "model_checking",
-		Rule: "(a) totality: every token string of length 1..n over a 25-token alphabet (keywords, identifiers, literals, punctuation, a window call, a lone quote, a lone backtick) and every byte string of length 0..m over 16 hostile bytes appended to 6 valid prefixes is parsed (rsql.Parse) under panic capture and a hang watchdog (20 s of CPU time on one input); (b) fidelity: every statement generated from the documented grammar (DISTINCT, 5+1 select lists with aliases/backticked keyword identifiers/keyword-bearing literals, FROM alias, INNER/LEFT JOIN, 10 WHERE clauses incl. string literals containing LIMIT / ORDER BY / WHERE / FROM / GROUP BY and the other quote character, 5 window kinds, 3 HAVING, 3 WITH option sets, 6 ORDER BY lists (explicit and implicit directions mixed), LIMIT; a third of them again with two sets of keyword-bearing identifiers such as orders, fromage, description, group1, isActive, nullable, whereabouts) is parsed and the returned configuration compared field by field with what was written; (b2) 108 MATCH_RECOGNIZE statements (PARTITION BY 0..2 columns, MEASURES, ONE/ALL ROWS PER MATCH, every AFTER MATCH SKIP form, 3 patterns, DEFINE incl. a literal containing DEFINE) with the clause compared field by field; (c) layout: each statement in 3 keyword cases x 4 separators must give a deep-equal configuration, and equal EmitSync results for a subset; non-trivial = the input was accepted",
+		Rule: "(a) totality: every token string of length 1..n over a 25-token alphabet (keywords, identifiers, literals, punctuation, a window call, a lone quote, a lone backtick) and every byte string of length 0..m over 16 hostile bytes appended to 6 valid prefixes, and to every truncation after a token of 7 valid statements covering every clause family (JOIN/ON, OVER/PARTITION BY, MATCH_RECOGNIZE, windows, CASE ...), is parsed (rsql.Parse) under panic capture and a hang watchdog (20 s of CPU time on one input); (b) fidelity: every statement generated from the documented grammar (DISTINCT, 5+1 select lists with aliases/backticked keyword identifiers/keyword-bearing literals, FROM alias, INNER/LEFT JOIN, 10 WHERE clauses incl. string literals containing LIMIT / ORDER BY / WHERE / FROM / GROUP BY and the other quote character, 5 window kinds, 3 HAVING, 3 WITH option sets, 6 ORDER BY lists (explicit and implicit directions mixed), LIMIT; a third of them again with two sets of keyword-bearing identifiers such as orders, fromage, description, group1, isActive, nullable, whereabouts) is parsed and the returned configuration compared field by field with what was written; (b2) 108 MATCH_RECOGNIZE statements (PARTITION BY 0..2 columns, MEASURES, ONE/ALL ROWS PER MATCH, every AFTER MATCH SKIP form, 3 patterns, DEFINE incl. a literal containing DEFINE) with the clause compared field by field; (c) layout: each statement in 3 keyword cases x 4 separators must give a deep-equal configuration, and equal EmitSync results for a subset; non-trivial = the input was accepted",
 		Bounds:      map[string]any{"token_len": map[string]int{"quick": 5, "thorough": 6}, "byte_len": map[string]int{"quick": 4, "thorough": 5}},
 		Assumptions: []string{"the grammar is the one accepted by rsql.Parser (clause order HAVING, WITH, ORDER BY, LIMIT; '*' only as the first select item)", "hang = a single Parse taking more than 5 s of wall clock"},
 	}
